@@ -68,6 +68,7 @@ package dict
 //@   requires p != nil && pwf(p)
 //@   modifies
 //@   ensures found: err == nil <==> cmd != nil
+//@   ensures its_own_error: err != io.EOF
 //@   ensures [C09 C17] exact: has(p.command, mk(codeIdx, appid, code, 4294967295)) ==> err == nil && cmd == p.command[mk(codeIdx, appid, code, 4294967295)]
 //@   ensures [C09 C17] base_fallback: !has(p.command, mk(codeIdx, appid, code, 4294967295)) && has(p.command, mk(codeIdx, 0, code, 4294967295)) ==>
 //@           err == nil && cmd == p.command[mk(codeIdx, 0, code, 4294967295)]
